@@ -11,6 +11,7 @@ import (
 func init() {
 	vRegister("VH_C03_Summaries", VH_C03_Summaries)
 	vRegister("VH_C03_ClientAuth", VH_C03_ClientAuth)
+	vRegister("VH_C10_ClientPolicyKept", VH_C10_ClientPolicyKept)
 	vRegister("VH_C03_ClientEnc", VH_C03_ClientEnc)
 	vRegister("VH_C03_ServerAuth", VH_C03_ServerAuth)
 	vRegister("VH_C03_ServerEnc", VH_C03_ServerEnc)
@@ -78,7 +79,17 @@ func vhRounds() int { return 2 }
 // this client; the reported flag and method are what ran.
 //
 //verif:unwind 6
-func VH_C03_ClientAuth() {
+func VH_C03_ClientAuth() { vhClientAuth() }
+
+// VH_C10_ClientPolicyKept: the same run read for C10: whatever a handshake does,
+// the method list of the caller's configuration is afterwards exactly what was
+// configured, so the next handshake from the same configuration (another server)
+// negotiates from the configured list, not from what the previous peer left of it.
+//
+//verif:unwind 6
+func VH_C10_ClientPolicyKept() { vhClientAuth() }
+
+func vhClientAuth() {
 	st := stream.NewStream(&vhConn{})
 	io_ := &vhIO{st: st}
 	defer vhInstall(io_)()
@@ -98,6 +109,14 @@ func VH_C03_ClientAuth() {
 		CryptoMethods:  []CryptoMethod{CryptoAES},
 	}
 	a := &Authenticator{config: cfg, stream: st}
+	configured := append([]AuthMethod{}, cfg.AuthMethods...)
+	kept := func() bool {
+		same := len(cfg.AuthMethods) == len(configured)
+		for i := 0; same && i < len(configured); i++ {
+			same = vAnd(same, cfg.AuthMethods[i] == configured[i])
+		}
+		return same
+	}
 	neg := &SecurityNegotiation{Command: commands.DC_AUTHENTICATE, ClientConfig: cfg, ServerConfig: srv, IsClient: true}
 	round := 0
 	io_.peer = func(k int) []vhItem {
@@ -120,9 +139,11 @@ func VH_C03_ClientAuth() {
 	}
 	if a.handleClientAuthentication(vhCtx, neg) != nil {
 		vCover("authentication-phase-fails")
+		vAssert(kept(), "handshake-leaves-the-configured-method-list-as-it-was")
 		return
 	}
 	vCover("authentication-phase-succeeds")
+	vAssert(kept(), "handshake-leaves-the-configured-method-list-as-it-was")
 	method, ran := vhRanOK()
 	vTag("ran", vhB2I(ran))
 	vAssert(vImplies(cfg.Authentication == SecurityRequired, ran), "required-authentication-really-ran")
